@@ -303,8 +303,7 @@ where
         for _ in 0..threads {
             s.spawn(|| {
                 // every worker polls the futures under test inside its own paused runtime
-                let rt = crate::sim::runtime();
-                let _g = rt.enter();
+                crate::sim::enter_thread_runtime();
                 let mut local: Vec<(usize, Stats)> = vec![];
                 loop {
                     let i = next.fetch_add(1, std::sync::atomic::Ordering::SeqCst);
